@@ -85,18 +85,22 @@ theorem recvLoop_inv {cs : List Chunk} {parts : List SPart} {ok : Nat → Prop} 
       simp only [recvLoop, hs]
       obtain ⟨htc, htb⟩ := hgm
       unfold handleCompletion
-      by_cases hmis : (!cfg.legacy && (decide (tc ≠ s.chunksReceived) || decide (tb ≠ s.totalReceived) || !s.buffer.isEmpty)) = true
+      by_cases hmis : (!cfg.legacy && (!s.buffer.isEmpty ||
+          ((tc != 0 || tb != 0) && (tc != s.chunksReceived || tb != s.totalReceived)))) = true
       · simp only [hmis, if_true]
         exact post_not_complete sf inst0 c0 h0 hex st s hs hb _ false
       · simp only [hmis]
-        simp only [hl, Bool.not_false, Bool.true_and, Bool.or_eq_true, decide_eq_true_eq, not_or, Bool.not_eq_true',
-          Bool.not_eq_false'] at hmis
-        obtain ⟨⟨h1, _⟩, _⟩ := hmis
-        have h1' : tc = s.chunksReceived := by
-          by_cases hh : tc = s.chunksReceived
-          · exact hh
-          · exact absurd hh (by simpa using h1)
-        have hall : s.chunksReceived = cs.length := by rw [← h1', htc]
+        have hall : s.chunksReceived = cs.length := by
+          by_cases hz : cs.length = 0
+          · have := hb.le; omega
+          · -- the completion announces a non-zero chunk count, so it was compared
+            by_cases heq : tc = s.chunksReceived
+            · rw [← heq, htc]
+            · exfalso
+              apply hmis
+              have h1 : (tc != 0) = true := by rw [htc]; simpa using hz
+              have h2 : (tc != s.chunksReceived) = true := by simpa using heq
+              simp [hl, h1, h2]
         -- both branches of the `match st.core.cur` leave `finish st.core` as the shard
         have hcore : ∀ (x : RState), x.core = finish st.core → x.sess = st.sess →
             Post cs ok inst0 (exactParts parts) c0.installed (Msg.completion tc tb :: ms)
